@@ -595,3 +595,29 @@ def _c18_rules_can_fire(tier="quick", seed=0):
 
 _c18_before_fire = EXTRA_CHECKS["C18"]
 EXTRA_CHECKS["C18"] = (lambda tier="quick", seed=0: _c18_before_fire(tier, seed) + _c18_rules_can_fire(tier, seed))
+
+
+# ---- the same scan (tests that cannot fail / cannot hold by construction of the expression) over the modules the other properties live in
+def _rules_scan(mods):
+    def f(tier="quick", seed=0):
+        import ast
+
+        from pyvc import source
+
+        out, scanned = [], 0
+        for mod in mods:
+            m = source.load(mod)
+            names = list(m.functions.keys()) + ["%s.%s" % (c, fn.name) for c, (node, _) in m.classes.items() for fn in node.body if isinstance(fn, ast.FunctionDef)]
+            for n in sorted(names):
+                scanned += 1
+                out += flow.rules_can_fire("%s:%s" % (mod, n))
+        out.append(dict(function="%s (all functions)" % ", ".join(mods), name="functions-scanned-for-tests-that-cannot-fire:%d" % scanned, kind="structural", status="proved" if scanned > 10 else "refuted",
+                        seconds=0.0, backend="ast-analysis", note="assert on a tuple, repeated elif test, duplicate Boolean operand, self-comparison, statement after an unconditional exit"))
+        return out
+
+    return f
+
+
+for _pid, _mods in (("C06", ("model", "parameters")), ("C13", ("programs",)), ("C15", ("optimization", "calibration")), ("C20", ("plotting", "results"))):
+    _prev = EXTRA_CHECKS.get(_pid)
+    EXTRA_CHECKS[_pid] = (lambda prev, scan: (lambda tier="quick", seed=0: (prev(tier, seed) if prev else []) + scan(tier, seed)))(_prev, _rules_scan(_mods))
